@@ -498,8 +498,11 @@ def handed_down_values_typed(h: Harness, rng):
     from linear import DSGE, GE, SGE, safe
     from geneticengine.random.sources import NativeRandomSource
     from geneticengine.representations.tree.treebased import TreeBasedRepresentation
-    g = ctxgrammar.levels_grammar()
-    for trial in range(h.n(6, 40)):
+    for trial in range(h.n(10, 60)):
+        # (every other round: a refinement with SEVERAL dependencies of different types, named in another order than the fields are
+        # declared -- the callable's arguments follow the names)
+        units = trial % 2 == 1
+        g = ctxgrammar.units_grammar() if units else ctxgrammar.levels_grammar()
         r = NativeRandomSource(rng.randrange(10**6))
         reps = [("tree", TreeBasedRepresentation(g, synth.make_decider("grow", 6, r, g))), ("GE", GE(g, synth.make_decider("grow", 6, r, g), gene_length=64)),
                 ("SGE", SGE(g, synth.make_decider("grow", 6, r, g), gene_length=64)), ("DynamicSGE", DSGE(g, 6))]
@@ -520,9 +523,9 @@ def handed_down_values_typed(h: Harness, rng):
                 st, p = safe(lambda: rep.genotype_to_phenotype(geno))
                 if st != "ok":
                     continue
-                h.count(f"handed-down-values-typed:{name}")
-                h.seen(f"levels-typed:{name}:{repr(p)[:70]}", nontrivial="LTail" in repr(p) or "LNest" in repr(p))
-                bad = ctxgrammar.level_type_errors(p)
+                h.count(f"{'several-dependencies-typed' if units else 'handed-down-values-typed'}:{name}")
+                h.seen(f"levels-typed:{name}:{repr(p)[:70]}", nontrivial="LTail" in repr(p) or "LNest" in repr(p) or units)
+                bad = ctxgrammar.units_type_errors(p) if units else ctxgrammar.level_type_errors(p)
                 if bad:
                     site = f"{name}.genotype_to_phenotype" if name != "tree" else "TreeBasedRepresentation.create_genotype"
                     h.fail(site, "ill-typed-program", f"{bad[0]} ({len(bad)} such fields) in {repr(p)[:160]}", [name, trial])
@@ -769,6 +772,12 @@ def corpus():
     C = gram.ClassSpec
     r02 = ("ann", "int", ("intRange", 0, 2))
     return [
+        # an ABSTRACT class that declares the fields its (absent) subclasses share and has NO production in this grammar (a sub-grammar of
+        # a larger language): it is never instantiated -- programs use the other alternatives only
+        gram.Spec([C("A0", True, None), C("Lit", False, 0, [("k", r02)]), C("BinOp", True, 0, [("l", ("cls", 0)), ("r", ("cls", 0))]),
+                   C("Neg", False, 0, [("e", ("cls", 0))])], 0, [1, 3, 2]),
+        gram.Spec([C("A0", True, None), C("Lit", False, 0, [("k", r02)]), C("Ext", True, None, [("k", r02)]),
+                   C("Use", False, 0, [("x", ("union", ("cls", 2), ("cls", 1))), ("e", ("cls", 0))])], 0, [1, 3, 2]),
         # two CONCRETE classes that mention each other in their fields (through a union and a list, so that programs are finite)
         gram.Spec([C("A0", True, None), C("Leaf", False, 0, [("k", r02)]),
                    C("Ping", False, 0, [("p", ("union", ("cls", 3), ("cls", 1)))]), C("Pong", False, 0, [("q", ("list", ("cls", 2))), ("k", r02)])], 0, [1, 2, 3]),
@@ -808,7 +817,11 @@ def run(h: Harness):
     retarget_scenario(h, rng)
     for spec in corpus():
         b = gram.build(spec)
-        g = b.extract()
+        try:
+            g = b.extract()
+        except Exception as e:  # noqa: BLE001   (a grammar the library declines to extract yields no programs to judge)
+            h.count(f"corpus-grammar-not-extracted:{type(e).__name__}")
+            continue
         mind = g.get_min_tree_depth()
         for kind in ("grow", "full", "pigrow", "progressive"):
             for depth in (mind, mind + 1, mind + 2):
